@@ -915,8 +915,9 @@ theorem HQ.info {cfg : Cfg} {G : Nat} {n : Net} {x y : Nat} {stx sty : NetStatio
   · exact ⟨h.solo.gx, h.soloY.gx, h.solo.xl, h.soloY.xl, h.yx⟩
   · exact ⟨h.gx, h.soloY.gx, h.xl, h.soloY.xl, h.yx⟩
 
-/-- Run from the GAP request to the reception of the reply: the listener `y` transmits nothing but the reply "not
-ready"; the claimant `x` transmits nothing; `x` has consumed the reply by `B`. -/
+/-- Run from the GAP request to the reception of the reply: the listener `y` transmits nothing but the reply with the
+report `state`; the requester `x` transmits nothing; `x` has consumed the reply by `B` (`HQ3`: if the report admits
+the listener, it is `x`'s next station and `x`'s view is that of the two-station ring). -/
 def RplRun (cfg : Cfg) (x y aL aH : Nat) (state : ResponseState) (B : Int) : Net → List (Nat × Int) → Prop
   | _, [] => True
   | n, (i, now) :: rest =>
@@ -926,9 +927,11 @@ def RplRun (cfg : Cfg) (x y aL aH : Nat) (state : ResponseState) (B : Int) : Net
           (now ≤ B ∧ ∃ stx sty q coll, HQ3 cfg n' x y stx sty q now coll state ∧ stx.s.p.address = aL ∧ sty.s.p.address = aH))))
 
 /-- **The first answered GAP request**: from the request on the bus, under any schedule that polls every station at
-least every `P`, the listener registers it, waits for the synchronisation pause and sends "not ready"; the claimant
-waits (its slot time never runs out), receives the reply in whatever pieces it arrives, and goes on scanning, at the
-latest `2 · ce 5 + bits 33 + 3 P` after the start of the request. -/
+least every `P`, the listener registers it, waits for the synchronisation pause and sends its report (`state`: what
+`listenReport` yields once it has heard everything up to the request); the requester (in `ClaimToken(ScanAwait)` or
+`AwaitStatusResponse`) waits (its slot time never runs out), receives the reply in whatever pieces it arrives, and
+goes on (adopting the listener if the report admits it), at the latest `2 · ce 5 + bits 33 + 3 P` after the start of
+the request. -/
 theorem reply_run {cfg : Cfg} (hok : cfg.Ok) (G : Nat) (hG : cfg.slot + 3 * cfg.P ≤ G) (x y : Nat) (r : Int) (r0 : TokenRing)
     (T : List Telegram) (aL aH : Nat) (state : ResponseState)
     (hrep : ∀ s : Station, s.ring = hearAll aL T r0 → listenReport s aL = state) :
